@@ -4257,6 +4257,28 @@ fn propagate_sctp_close_reason(inner: &PeerConnectionInner) {
     }
 }
 
+/// The transport loops of a connected PeerConnection ended on their own (the
+/// peer aborted or shut down SCTP, the DTLS channel closed, ...): nothing will
+/// drive the connection any more, so report it.
+fn mark_transport_ended(inner: &PeerConnectionInner) {
+    let _ = inner.disconnect_reason.send_if_modified(|cur| {
+        if cur.is_none() {
+            *cur = Some(DisconnectReason::Unknown("transport loops ended".into()));
+            true
+        } else {
+            false
+        }
+    });
+    let _ = inner.peer_state.send_if_modified(|s| {
+        if matches!(*s, PeerConnectionState::Closed | PeerConnectionState::Failed) {
+            false
+        } else {
+            *s = PeerConnectionState::Failed;
+            true
+        }
+    });
+}
+
 async fn handle_connected_state_no_dtls(
     inner_weak: &std::sync::Weak<PeerConnectionInner>,
     ice_state_rx: &mut watch::Receiver<crate::transports::ice::IceTransportState>,
@@ -4293,6 +4315,7 @@ async fn handle_connected_state_no_dtls(
                         _ = &mut rtcp_loop => {
                             if let Some(inner) = inner_weak.upgrade() {
                                 propagate_sctp_close_reason(&inner);
+                                mark_transport_ended(&inner);
                             }
                             break;
                         }
@@ -4402,6 +4425,7 @@ async fn handle_connected_state(
                                 tokio::select! {
                                     _ = &mut rtcp_loop => {
                                         propagate_sctp_close_reason(&inner);
+                                        mark_transport_ended(&inner);
                                         break;
                                     }
                                     res = ice_state_rx.changed() => {
@@ -4485,6 +4509,7 @@ async fn handle_connected_state(
                                 tokio::select! {
                                     _ = &mut rtcp_loop => {
                                         propagate_sctp_close_reason(&inner);
+                                        mark_transport_ended(&inner);
                                         break;
                                     }
                                     res = ice_state_rx.changed() => {
